@@ -173,6 +173,34 @@ func TestVerifC18(t *testing.T) {
 			k++
 		}
 	}
+	// nesting: for the languages whose block comments nest, all sequences of up to NL opening and
+	// closing delimiters, letters and newlines (depth > 1, unbalanced and sibling comments)
+	NL := 6
+	if vthorough() {
+		NL = 8
+	}
+	for lang := 0; lang <= int(language.Yaml)+1; lang++ {
+		l := language.Language(lang)
+		if !l.NestedComments() {
+			continue
+		}
+		toks := []string{l.MultilineCommentStart(), l.MultilineCommentEnd(), "a", "\n"}
+		cnt := 0
+		var rec func(prefix string, depth int)
+		rec = func(prefix string, depth int) {
+			if depth > 2 {
+				emit(fmt.Sprintf("n%d_%d", lang, cnt), lang, []byte(prefix))
+				cnt++
+			}
+			if depth == NL {
+				return
+			}
+			for _, a := range toks {
+				rec(prefix+a, depth+1)
+			}
+		}
+		rec("", 0)
+	}
 	// ChunkIterator on random line patterns
 	nc := 200
 	if vthorough() {
